@@ -121,6 +121,10 @@ VSseek(int32 vkey, /* IN: vdata key */
     if (vs->wlist.n <= 0)
         HGOTO_ERROR(DFE_BADFIELDS, FAIL);
 
+    /* the byte offset of the element must be representable */
+    if (vs->wlist.ivsize > 0 && eltpos > INT32_MAX / (int32)vs->wlist.ivsize)
+        HGOTO_ERROR(DFE_BADSEEK, FAIL);
+
     /* calculate offset of element in vdata */
     offset = eltpos * vs->wlist.ivsize;
 
